@@ -269,13 +269,25 @@ func c05Reopen(ev *vlib.Evidence, idx int) {
 	req := pool.ConnectRequest{}
 	sig := vlib.RefSign(id.Key, "vipnode_connect", id.NodeID, n, req)
 	first := guardedCall(w.Local, "vipnode_connect", sig, id.NodeID, n, req)
+	// a second, later request of the same identity is accepted before the restart as well
+	n2 := n + 5
+	sig2 := vlib.RefSign(id.Key, "vipnode_connect", id.NodeID, n2, req)
+	second := guardedCall(w.Local, "vipnode_connect", sig2, id.NodeID, n2, req)
 	s.Close()
 	s = open()
 	defer s.Close()
 	w2, _ := vlib.NewWorld(vlib.WorldOptions{Store: s})
 	replay := guardedCall(w2.Local, "vipnode_connect", sig, id.NodeID, n, req)
+	// a refused replay is not the end of it: the same request, again and again
+	for k := 0; k < 3 && !replay.Accepted; k++ {
+		replay = guardedCall(w2.Local, "vipnode_connect", sig, id.NodeID, n, req)
+	}
+	// both captured requests are replayed, the older one first
+	if second.Accepted && !replay.Accepted {
+		replay = guardedCall(w2.Local, "vipnode_connect", sig2, id.NodeID, n2, req)
+	}
 	lower := guardedCall(w2.Local, "vipnode_connect", vlib.RefSign(id.Key, "vipnode_connect", id.NodeID, n-1, req), id.NodeID, n-1, req)
-	higher := guardedCall(w2.Local, "vipnode_connect", vlib.RefSign(id.Key, "vipnode_connect", id.NodeID, n+1, req), id.NodeID, n+1, req)
+	higher := guardedCall(w2.Local, "vipnode_connect", vlib.RefSign(id.Key, "vipnode_connect", id.NodeID, n2+1, req), id.NodeID, n2+1, req)
 	ev.Case(fmt.Sprintf("reopen %d", idx), true)
 	ev.Count("reopen-cycles", 1)
 	if !first.Accepted {
